@@ -38,6 +38,7 @@ ASSUMPTIONS = [
     "built are outside the statement",
 ]
 
+SELECTABLE = ("grid1d", "grid2d", "grid3d", "oned", "periodic0", "periodic0_1d")
 KINDS = ("grid1d", "grid2d", "grid3d", "oned", "angular", "atom", "mol", "tensor", "uniform",
          "local", "periodic0", "periodic0_1d")
 # 5.0 exceeds the extent of every test grid but not the distance of the far centre (an empty
@@ -170,9 +171,11 @@ class World:
             return
         p0 = np.array(self.grid.points, dtype=float)
         w0 = np.array(self.grid.weights, dtype=float)
-        self.P = [p0, p0 + 0.3, 0.5 * p0[::-1].copy()]
+        # (a OneDGrid declares a domain: reassigned points stay inside it)
+        self.P = [p0, (0.9 * p0 + 0.05) if kind == "oned" else p0 + 0.3, 0.5 * p0[::-1].copy()]
         self.W = [w0, w0 * 2.0, w0[::-1].copy() + 0.1]
         self.ties = 0
+        self.nsel = 0
         c = p0.reshape(len(p0), -1)
         dim = c.shape[1]
         gen = np.array([0.13, -0.21, 0.34])[:dim]
@@ -194,6 +197,10 @@ class World:
                # (checked and reported there), not part of C10's list of grid kinds
                if not (self.kind.startswith("periodic") and RADII[ri] == np.inf)]
         evs += [("SP", 1), ("SP", 2), ("SW", 1), ("SW", 2)]
+        if self.kind in SELECTABLE and self.nsel < 1:
+            # SEL(k): continue with the selection grid[index_k] (it must not inherit anything, e.g. a
+            # neighbour tree, from its parent).  Added after seeded change C11-B was missed.
+            evs += [("SEL", 0), ("SEL", 1)]
         return evs
 
     def apply(self, ev):
@@ -216,6 +223,21 @@ class World:
                     self._bad("Q:grid-modified", "a query changed the grid's points or weights")
                 return ("Q", len(loc.indices), explore._digest(np.sort(np.asarray(loc.indices)).tolist()))
             kind, k = ev
+            if kind == "SEL":
+                n = len(self.P[self.pv])
+                index = slice(2, None) if k == 0 else np.arange(n)[::-1][: n - 3]
+                try:
+                    sub = g[index]
+                except Exception as exc:
+                    self._bad(f"SEL:raised:{type(exc).__name__}", f"selection raised {type(exc).__name__}: {exc}")
+                    return ("exc", type(exc).__name__)
+                self.grid = sub
+                self.P = [p[index] for p in self.P]
+                self.W = [w[index] for w in self.W]
+                self.nsel += 1
+                if not (np.array_equal(sub.points, self.P[self.pv]) and np.array_equal(sub.weights, self.W[self.wv])):
+                    self._bad("SEL:wrong-content", "the selection does not hold exactly the selected points / weights")
+                return ("SEL", k, len(self.P[0]))
             attr = "points" if kind == "SP" else "weights"
             new = (self.P if kind == "SP" else self.W)[k].copy()
             try:
@@ -250,7 +272,7 @@ class World:
             for k, p in enumerate(self.P):
                 if data.shape == p.reshape(len(p), -1).shape and np.array_equal(data, p.reshape(len(p), -1)):
                     tv = k
-        return (self.kind, self.pv, self.wv, tv)
+        return (self.kind, self.pv, self.wv, tv, self.nsel, len(self.P[0]))
 
 
 # ------------------------------------------------------------------------------ selection (E2)
